@@ -954,7 +954,7 @@ pub fn conformant_name_body(t: &[u8]) -> bool {
     while i < t.len() {
         if !is_regular(t[i]) { return false; }
         if t[i] == b'#' {
-            if i + 2 >= t.len() + 0 && i + 2 > t.len() - 1 { return false; }
+            if i + 2 >= t.len() { return false; }
             if !(t[i + 1].is_ascii_hexdigit() && t[i + 2].is_ascii_hexdigit()) { return false; }
             i += 3;
         } else {
@@ -1213,7 +1213,7 @@ fn pcase_request(p: &PCase) -> String {
 }
 
 /// the oracle of C03 on one parsed rendering: `None` = holds, else (signature, what)
-fn check_denotes(exp: &Val, exp_id: Option<(u64, u64)>, exp_cursor: Option<usize>, got: &Parsed, buf: &[u8], off: usize, forms: &[(Vec<u8>, bool)], wrapper: &str) -> Option<(String, String)> {
+fn check_denotes(exp: &Val, exp_id: Option<(u64, u64)>, exp_cursor: Option<usize>, got: &Parsed, buf: &[u8], off: usize, forms: &[(Vec<u8>, bool)]) -> Option<(String, String)> {
     if got.text == "panic" {
         return Some(("panic".into(), "the parser panicked on a conformant spelling".into()));
     }
@@ -1224,7 +1224,6 @@ fn check_denotes(exp: &Val, exp_id: Option<(u64, u64)>, exp_cursor: Option<usize
                 return Some(("name-not-utf8".into(), "a conformant spelling with a name that is not UTF-8 after #xx decoding is rejected".into()));
             }
             let k = match exp { Val::Str(s) => str_kind(s, &DiffCtx { identify_numbers: false, buf, file_off: off, id: None, forms }), v => kind_name(v).to_string() };
-            let k = if wrapper.is_empty() || matches!(exp, Val::StreamPending(..)) { k } else { k };
             return Some((k, format!("a conformant spelling of a {} is rejected (Err)", kind_name(exp))));
         }
     };
@@ -1249,12 +1248,15 @@ fn parse_streams(driver: &Driver, seed: u64, from: u64, to: u64, render_st: &mut
     let mut st = Stream::new("c03.parse", true);
     let mut deep = Stream::new("c03.parse.deep", false);
     let mut or = Oracle::new("c03.denotes");
+    let mut lo = from;
+    while lo < to {
+    let hi = (lo + 20_000).min(to);
     let mut rreqs = vec![];
     let mut rimps = vec![];
     let mut preqs = vec![];
     let mut pimps = vec![];
     let mut pdeep = vec![];
-    for case in from..to {
+    for case in lo..hi {
         let p = gen_pcase(seed, case);
         count_render(render_st, &p.c);
         rreqs.push(render_request(&p.c));
@@ -1274,7 +1276,7 @@ fn parse_streams(driver: &Driver, seed: u64, from: u64, to: u64, render_st: &mut
             let exp_id = if p.pmode == "plain" { None } else { Some(p.c.id) };
             let key = format!("{} {}", p.pmode, hex(&p.buf));
             or.case(&key, true, || json!({"mode": p.pmode, "value": show_val(&p.c.value), "text": String::from_utf8_lossy(&p.c.text), "got": got.text}));
-            if let Some((sig, what)) = check_denotes(&p.c.value, exp_id, exp_cursor, &got, &p.buf, p.off, &p.c.stats.forms, p.pmode) {
+            if let Some((sig, what)) = check_denotes(&p.c.value, exp_id, exp_cursor, &got, &p.buf, p.off, &p.c.stats.forms) {
                 fail_limited(&mut or, &sig, &what, json!({"stream": "c03.parse", "seed": seed, "case": case, "mode": p.pmode, "value": show_val(&p.c.value), "tape": show_tape(&p.c.tape),
                     "tail": hex(&p.c.tail), "buffer": hex(&p.buf), "pos": p.pos, "flags": p.flags, "file_offset": p.off, "lens": show_lens(&p.c.lens),
                     "expected": format!("{} cursor {:?}", show_canon(&p.c.value), exp_cursor), "got": got.text, "text": String::from_utf8_lossy(&p.buf)}));
@@ -1295,6 +1297,8 @@ fn parse_streams(driver: &Driver, seed: u64, from: u64, to: u64, render_st: &mut
         let s = if *d { &mut deep } else { &mut st };
         s.count(&format!("outcome={}", m.split(' ').next().unwrap_or("")));
         s.case(rq, &m, i, true);
+    }
+    lo = hi;
     }
     (vec![st, deep], or)
 }
@@ -1319,7 +1323,7 @@ fn run_sequence(buf: &[u8], start: usize, exp: &[Val], spans: &[(usize, usize)],
         let got = imp_parse("plain", buf, pos, 1023, 0, &vec![], None);
         reqs.push(parse_request("plain", buf, pos, 1023, 0, &vec![], None));
         imps.push(got.text.clone());
-        if let Some((sig, what)) = check_denotes(v, None, Some(start + spans[i].1), &got, buf, 0, forms, "") {
+        if let Some((sig, what)) = check_denotes(v, None, Some(start + spans[i].1), &got, buf, 0, forms) {
             return Some((sig, format!("object {} of the sequence (read from {}): {}", i, pos, what)));
         }
         pos = got.pos;
@@ -1330,8 +1334,11 @@ fn run_sequence(buf: &[u8], start: usize, exp: &[Val], spans: &[(usize, usize)],
 fn seq_streams(driver: &Driver, seed: u64, from: u64, to: u64, render_st: &mut Stream) -> (Stream, Oracle) {
     let mut st = Stream::new("c03.seq", true);
     let mut or = Oracle::new("c03.sequence");
+    let mut lo = from;
+    while lo < to {
+    let hi = (lo + 10_000).min(to);
     let (mut rreqs, mut rimps, mut preqs, mut pimps) = (vec![], vec![], vec![], vec![]);
-    for case in from..to {
+    for case in lo..hi {
         let (c, buf, start) = gen_seq_case(seed, case);
         count_render(render_st, &c);
         rreqs.push(render_request(&c));
@@ -1356,6 +1363,8 @@ fn seq_streams(driver: &Driver, seed: u64, from: u64, to: u64, render_st: &mut S
         let m = canon_parse_answer("plain", m);
         st.count(&format!("outcome={}", m.split(' ').next().unwrap_or("")));
         st.case(rq, &m, i, true);
+    }
+    lo = hi;
     }
     (st, or)
 }
@@ -1391,6 +1400,7 @@ fn mutated_stream(driver: &Driver, seed: u64, n: u64) -> Stream {
         mutate(&mut rng, &mut buf);
         st.count(&format!("mode={}", mode));
         reqs.push(parse_request(mode, &buf, 0, 1023, 0, &c.lens, None));
+        if reqs.len() >= 50_000 { compare(driver, &mut st, &reqs); reqs.clear(); }
     }
     compare(driver, &mut st, &reqs);
     st
@@ -1429,6 +1439,7 @@ fn str_streams(driver: &Driver, seed: u64, from: u64, to: u64, njunk: u64, or: &
                 json!({"stream": "c03.str", "seed": seed, "case": case, "value": show_val(&Val::Str(s.clone())), "buffer": hex(&buf), "pos": pos, "expected": exp, "got": got}));
         }
         reqs.push(rq);
+        if reqs.len() >= 100_000 { compare(driver, &mut st, &reqs); reqs.clear(); }
     }
     compare(driver, &mut st, &reqs);
     let mut reqs = vec![];
@@ -1522,7 +1533,7 @@ fn run_witnesses(or: &mut Oracle, wits: &[Wit], stream: &str, only: Option<u64>)
                 let got = imp_parse(m, w.buf, 0, 1023, 0, &vec![], None);
                 got_text = got.text.clone();
                 let id = if m == "plain" { None } else { Some((1, 0)) };
-                check_denotes(&w.exp[0], id, Some(w.ends[0]), &got, w.buf, 0, &forms, m)
+                check_denotes(&w.exp[0], id, Some(w.ends[0]), &got, w.buf, 0, &forms)
             }
         };
         or.case(&format!("witness {}", w.name), true, || json!({"witness": w.name, "text": String::from_utf8_lossy(w.buf), "got": got_text}));
@@ -1537,6 +1548,7 @@ fn run_witnesses(or: &mut Oracle, wits: &[Wit], stream: &str, only: Option<u64>)
 
 pub fn run(driver: &Driver, seed: u64, thorough: bool, replay: Option<&Value>) -> Report {
     let mut rep = Report::new("C03");
+    // debugging aid: PDFVERIF_DEBUG=1 prints panics raised by the harness's own code (main silences all)
     if std::env::var("PDFVERIF_DEBUG").is_ok() { std::panic::set_hook(Box::new(|i| { if let Some(l) = i.location() { if l.file().starts_with("src/") { eprintln!("PANIC {}", i); } } })); }
     let mut render_st = Stream::new("c03.render", true);
     if let Some(r) = replay {
